@@ -574,8 +574,8 @@ def stmts(nodes, ctx, fields):
 
 
 # ---------------------------------------------------------------- driver
-def load_ast(repo, src):
-    cmd = ["clang", "-fsyntax-only", "-I", os.path.join(repo, "include"), "-I", os.path.join(repo, "src"),
+def load_ast(repo, src, defs=()):
+    cmd = ["clang", "-fsyntax-only", "-I", os.path.join(repo, "include"), "-iquote", os.path.join(repo, "src")] + list(defs) + [
            "-Xclang", "-ast-dump=json", os.path.join(repo, src)]
     p = subprocess.run(cmd, stdout=subprocess.PIPE, stderr=subprocess.PIPE, timeout=120)
     if p.returncode != 0:
